@@ -1,3 +1,5 @@
+//go:build all || c20
+
 package props
 
 import (
